@@ -601,10 +601,6 @@ class DFTTransformer(BilateralForwardTransformer):
             nn0 = -bb / aa
             if nn0.is_integer:
                 if is_in_interval(lower, upper, nn0, comment='delta') == 0:
-                    # Shift frequency to -pi/2 ...  pi/2
-                    if nn0.has(self.N):
-                        nn0 = nn0.subs(self.N, 0)
-
                     result_q = const * q**nn0
                     result = QkTransform(result_q)
                 else:
